@@ -39,7 +39,7 @@ def bounded(tier, seed):
                                                               "semantic": False}, "got": P.fmt(out, plaintext=True, width=w)[:300], "want": out[:300]})
     # typography-rich prose: quotes, apostrophes and dot runs next to soft breaks, all typography on, many widths
     TYPO = ["it's", "John's", "dogs'", "don't", "word", "and", "then", "wait...", "so...", "end...", "(really)", "(so.)", "hmm", "ok.",
-            "Really?", "plain", "words", "here"]
+            "Really?", "plain", "words", "here", "*He said*", "`code`", "[l](http://u.v)", "**bold**"]
     QUOTED = ['"hello world"', "'single quoted'", '"a"', "'b'"]
     for i in range(30 if tier == "quick" else 300):
         toks = []
